@@ -295,9 +295,9 @@ impl<'d> BuildCtx<'d> {
                     let real = match catch_unwind(AssertUnwindSafe(|| match ctl {
                         0 if chain && well_formed => *b = std::mem::take(b).with_batch(Ctl0(core), ib, name, &dr),
                         2 if chain && well_formed => *b = std::mem::take(b).with_batch(Ctl2(core), ib, name, &dr),
-                        9 if chain && well_formed && !direct => *b = std::mem::take(b).with_batch(MCtl(core, MultiDispatcher::new(Plan9(*n))), ib, name, &dr),
-                        9 if direct => b.add_batch(MultiDispatcher::new(Plan9(*n)), ib, name, &dr),
-                        10 if direct => b.add_batch(MultiDispatcher::new(Plan10(*n)), ib, name, &dr),
+                        9 if chain && well_formed && !direct => *b = std::mem::take(b).with_batch(MCtl(core, MultiDispatcher::new(Plan9(PlanCore::probing(*n, &self.shared, *tag)))), ib, name, &dr),
+                        9 if direct => b.add_batch(MultiDispatcher::new(Plan9(PlanCore::fixed(*n))), ib, name, &dr),
+                        10 if direct => b.add_batch(MultiDispatcher::new(Plan10(PlanCore::fixed(*n))), ib, name, &dr),
                         0 => b.add_batch(Ctl0(core), ib, name, &dr),
                         1 => b.add_batch(Ctl1(core), ib, name, &dr),
                         2 => b.add_batch(Ctl2(core), ib, name, &dr),
@@ -307,8 +307,8 @@ impl<'d> BuildCtx<'d> {
                         6 => b.add_batch(Ctl6(core), ib, name, &dr),
                         7 => b.add_batch(Ctl7(core), ib, name, &dr),
                         8 => b.add_batch(Ctl8(core), ib, name, &dr),
-                        9 => b.add_batch(MCtl(core, MultiDispatcher::new(Plan9(*n))), ib, name, &dr),
-                        _ => b.add_batch(MCtl(core, MultiDispatcher::new(Plan10(*n))), ib, name, &dr),
+                        9 => b.add_batch(MCtl(core, MultiDispatcher::new(Plan9(PlanCore::probing(*n, &self.shared, *tag)))), ib, name, &dr),
+                        _ => b.add_batch(MCtl(core, MultiDispatcher::new(Plan10(PlanCore::probing(*n, &self.shared, *tag)))), ib, name, &dr),
                     })) {
                         Ok(()) => "placed".to_string(),
                         Err(p) => classify_add_panic(p),
